@@ -3,8 +3,10 @@
    C05/ProofsVanish.v, C05/ProofsClock.v.
    Model: C05/Model.v (transcription of psutil/__init__.py children/parent/parents/
    ppid and _pslinux.ppid_map; [as_is] = the code as it is now, [before_fixes] = the
-   code before the repairs 6afb079 / 3959fba / e202d3b / 671469c, [before_nsp_fix] = the code
-   before 671469c only), specification: C05/Spec.v.
+   code before the repairs 6afb079 / 3959fba / e202d3b / 671469c / e49a6c9, [before_nsp_fix] = the code
+   before 671469c, [before_mono_fix] = the code before e49a6c9 only), specification: C05/Spec.v.
+   Caller state: [live_b t o] = the caller's PID still holds the start ticks of its identity --
+   no condition on its create_time() cache, on btime or on the BOOT_TIME cache (repair e49a6c9).
    t = the listed process table (pid, ppid, start ticks), any size, any parent links;
    gone = PIDs vanishing before the call has read their create_time() (children(): before
    ppid_map reads them / before Process(pid) / before child.create_time(); parent(): before
@@ -16,9 +18,9 @@ From PV Require Import C05.Spec C05.Lib C05.Proofs C05.ProofsSpec C05.ProofsPare
 (* children(): exactly the listed processes naming the caller as parent, never the
    caller itself, still there and not started before it, in listing order *)
 Theorem C05_children_direct : forall t gone o,
-  wf_table t = true -> alive_b t o = true ->
+  wf_table t = true -> live_b t o = true ->
   children_direct as_is t gone o = Val (spec_children t gone (o_pid o) (o_ident o)).
-Proof. exact children_direct_exact. Qed.
+Proof. exact children_direct_live. Qed.
 Print Assumptions C05_children_direct.
 
 (* children(recursive=True): with fuel |t|+1 the loop ends, every process is returned
@@ -26,10 +28,10 @@ Print Assumptions C05_children_direct.
    caller through parent links (least set; through processes that are still there and
    not older than the caller) *)
 Theorem C05_children_rec_exact : forall t gone o,
-  wf_table t = true -> alive_b t o = true ->
+  wf_table t = true -> live_b t o = true ->
   exists l, children_rec as_is (S (length t)) t gone o = Val (Some l) /\ NoDup l /\
             forall q, In q l <-> (desc t gone (o_pid o) (o_ident o) q /\ q <> o_pid o).
-Proof. exact children_rec_exact. Qed.
+Proof. exact children_rec_live. Qed.
 Print Assumptions C05_children_rec_exact.
 
 (* termination on ANY parent-link graph (cycles, self-loops, unlisted parents), for any
@@ -69,9 +71,9 @@ Print Assumptions C05_children_rec_old_refuted.
 (* parent(): the process named by ppid() unless unlisted or younger than the caller;
    none for the root (lowest listed PID) -- with a fresh lowest-PID cache *)
 Theorem C05_parent_spec : forall t cache o,
-  wf_table t = true -> alive_b t o = true -> cache_fresh_b t cache = true ->
+  wf_table t = true -> live_b t o = true -> cache_fresh_b t cache = true ->
   parent as_is t [] cache o = Val (spec_parent t (o_pid o) (o_ident o)).
-Proof. exact parent_spec. Qed.
+Proof. exact parent_static_live. Qed.
 Print Assumptions C05_parent_spec.
 
 Theorem C05_root_is_lowest : forall t r, root_of (pids_of t) = Some r ->
@@ -114,34 +116,34 @@ Print Assumptions C05_parents_terminates.
 
 (* ... always returns a list for a live caller ... *)
 Theorem C05_parents_total : forall t cache o,
-  wf_table t = true -> alive_b t o = true -> cache_fresh_b t cache = true ->
+  wf_table t = true -> live_b t o = true -> cache_fresh_b t cache = true ->
   exists l, parents as_is (S (length t)) t [] [] cache o = Val (Some l).
-Proof. exact parents_total. Qed.
+Proof. intros t cache o. exact (parents_total_live t [] [] cache o). Qed.
 Print Assumptions C05_parents_total.
 
 (* ... namely the chain of parent() up to the root, cut before the first process already
    met (the caller or an earlier member) when PID reuse made the links cyclic ... *)
 Theorem C05_parents_cut : forall t cache o,
-  wf_table t = true -> alive_b t o = true -> cache_fresh_b t cache = true ->
+  wf_table t = true -> live_b t o = true -> cache_fresh_b t cache = true ->
   exists l, parents as_is (S (length t)) t [] [] cache o = Val (Some l) /\ chain_cut t [o_pid o] (o_pid o) l.
-Proof. exact parents_cut. Qed.
+Proof. exact parents_cut_live. Qed.
 Print Assumptions C05_parents_cut.
 
 (* ... which is the chain of parent() up to the root whenever that chain ends ... *)
 Theorem C05_parents_chain_complete : forall t cache o l fuel,
-  wf_table t = true -> alive_b t o = true -> cache_fresh_b t cache = true ->
+  wf_table t = true -> live_b t o = true -> cache_fresh_b t cache = true ->
   chain t (o_pid o) l -> (length l <= fuel)%nat ->
   parents as_is fuel t [] [] cache o = Val (Some l).
-Proof. exact parents_chain_complete. Qed.
+Proof. exact parents_chain_complete_live. Qed.
 Print Assumptions C05_parents_chain_complete.
 
 (* ... and the chain does end, and is what parents() returns, on every table in which no
    process is its own ancestor *)
 Theorem C05_parents_acyclic_chain : forall t cache o,
-  wf_table t = true -> alive_b t o = true -> cache_fresh_b t cache = true ->
+  wf_table t = true -> live_b t o = true -> cache_fresh_b t cache = true ->
   (forall p k, up t (S k) p <> Some p) ->
   exists l, parents as_is (S (length t)) t [] [] cache o = Val (Some l) /\ chain t (o_pid o) l.
-Proof. exact parents_acyclic_chain. Qed.
+Proof. exact parents_acyclic_chain_live. Qed.
 Print Assumptions C05_parents_acyclic_chain.
 
 (* decidable sufficient condition for "no process is its own ancestor" *)
@@ -159,30 +161,30 @@ Print Assumptions C05_parents_old_nonterminating_refuted.
 
 (* processes vanishing while parent() looks at them: a parent that vanishes before its
    create_time() was read is no parent *)
-Theorem C05_parent_spec_vanish : forall fx t gone cache o,
-  wf_table t = true -> alive_b t o = true -> cache_fresh_b t cache = true ->
-  parent fx t gone cache o = Val (spec_parent_v t gone (o_pid o) (o_ident o)).
-Proof. exact parent_spec_v. Qed.
+Theorem C05_parent_spec_vanish : forall t gone cache o,
+  wf_table t = true -> live_b t o = true -> cache_fresh_b t cache = true ->
+  parent as_is t gone cache o = Val (spec_parent_v t gone (o_pid o) (o_ident o)).
+Proof. exact parent_live. Qed.
 Print Assumptions C05_parent_spec_vanish.
 
 (* processes vanishing while parents() walks up: whatever vanishes (before a process could be
    linked, or after an ancestor was appended), a live caller always gets a list from
    parents() -- never an exception, never a hang *)
 Theorem C05_parents_total_vanish : forall t gone goneb cache o,
-  wf_table t = true -> alive_b t o = true -> cache_fresh_b t cache = true ->
+  wf_table t = true -> live_b t o = true -> cache_fresh_b t cache = true ->
   exists l, parents as_is (S (length t)) t gone goneb cache o = Val (Some l).
-Proof. exact parents_total_v. Qed.
+Proof. exact parents_total_live. Qed.
 Print Assumptions C05_parents_total_vanish.
 
 (* ... namely the chain of parent() under vanishing (a process that vanished before it could be
    linked is no parent; the chain ends WITH the first ancestor that vanished after it was
    linked), whenever that chain ends *)
 Theorem C05_parents_chain_vanish : forall t gone goneb cache o l fuel,
-  wf_table t = true -> alive_b t o = true -> cache_fresh_b t cache = true ->
+  wf_table t = true -> live_b t o = true -> cache_fresh_b t cache = true ->
   memz (o_pid o) goneb = false ->
   chain_v t gone goneb (o_pid o) l -> (length l <= fuel)%nat ->
   parents as_is fuel t gone goneb cache o = Val (Some l).
-Proof. exact parents_chain_v_complete. Qed.
+Proof. exact parents_chain_v_live. Qed.
 Print Assumptions C05_parents_chain_vanish.
 
 (* with nothing vanishing that chain is the chain of parent() up to the root *)
@@ -193,11 +195,11 @@ Print Assumptions C05_chain_vanish_static.
 (* the harness's oracle for parents() (spec_parents_v) names that chain, and the model of
    the code returns it *)
 Theorem C05_parents_oracle : forall t gone goneb cache o l,
-  wf_table t = true -> alive_b t o = true -> cache_fresh_b t cache = true ->
+  wf_table t = true -> live_b t o = true -> cache_fresh_b t cache = true ->
   memz (o_pid o) goneb = false ->
   spec_parents_v t gone goneb (length t) (o_pid o) = Some l ->
   parents as_is (S (length t)) t gone goneb cache o = Val (Some l) /\ chain_v t gone goneb (o_pid o) l.
-Proof. exact parents_oracle. Qed.
+Proof. exact parents_oracle_live. Qed.
 Print Assumptions C05_parents_oracle.
 
 (* fixed (671469c): before the repair an ancestor vanishing after parents() appended it made
@@ -214,62 +216,37 @@ Print Assumptions C05_parents_vanish_old_refuted.
    [clock_obj pid ident k0 evs] = the caller after a history [evs] of clock steps (SetBtime),
    psutil.boot_time() calls and create_time() calls, started with the clock state k0. *)
 
-(* the code as it is: as long as psutil.boot_time() is not called, steps of btime change
-   nothing -- the caller is "alive" in the sense of all theorems above, which therefore
-   apply unchanged (cached create_time() and fresh reads share the BOOT_TIME cache) *)
-Theorem C05_clock_no_refresh : forall t pid ident k0 evs, ~ In CallBootTime evs ->
-  alive_b t (clock_obj pid ident k0 evs) = live_b t (clock_obj pid ident k0 evs).
-Proof. exact clock_no_refresh. Qed.
-Print Assumptions C05_clock_no_refresh.
-
-(* known finding: create_time() cached, clock stepped by +100 s, psutil.boot_time() called:
-   children() of the live caller 5 reports PID 12 that started before it, parent() is None;
-   with the proposed repair (age tests on start times since boot) both are right *)
-Theorem C05_clock_refuted :
-  exists t k0 evs, let o := clock_obj 5 3000 k0 evs in
-    wf_table t = true /\ live_b t o = true /\
-    spec_children t [] 5 3000 = [9] /\ children_direct as_is t [] o = Val [9; 12] /\
-    spec_parent_v t [] 5 3000 = Some (1, 100) /\ parent as_is t [] None o = Val None /\
-    children_direct with_mono t [] o = Val [9] /\ parent with_mono t [] None o = Val (Some (1, 100)).
-Proof. exact clock_refuted. Qed.
-Print Assumptions C05_clock_refuted.
-
-(* with that repair: the four answers are invariant under EVERY clock history (any steps of
-   btime, any boot_time() calls, any earlier create_time() calls, any initial clock state) *)
-Theorem C05_btime_invariance : forall fx, fx_mono fx = true ->
+(* the four answers are invariant under EVERY clock history (any steps of btime, any
+   boot_time() calls, any earlier create_time() calls, any initial clock state): both sides of
+   every age test are start times since boot *)
+Theorem C05_btime_invariance :
   forall t gone goneb cache fuel pid ident k0 evs k0' evs',
     let o := clock_obj pid ident k0 evs in
     let o' := clock_obj pid ident k0' evs' in
-    children_direct fx t gone o = children_direct fx t gone o' /\
-    children_rec fx fuel t gone o = children_rec fx fuel t gone o' /\
-    parent fx t gone cache o = parent fx t gone cache o' /\
-    parents fx fuel t gone goneb cache o = parents fx fuel t gone goneb cache o'.
-Proof. exact btime_invariance. Qed.
+    children_direct as_is t gone o = children_direct as_is t gone o' /\
+    children_rec as_is fuel t gone o = children_rec as_is fuel t gone o' /\
+    parent as_is t gone cache o = parent as_is t gone cache o' /\
+    parents as_is fuel t gone goneb cache o = parents as_is fuel t gone goneb cache o'.
+Proof. exact (btime_invariance as_is eq_refl). Qed.
 Print Assumptions C05_btime_invariance.
 
-(* ... and they are the demanded ones (computed from start ticks only) for every live caller,
-   whatever its create_time() cache holds *)
-Theorem C05_children_direct_mono : forall t gone o, wf_table t = true -> live_b t o = true ->
-  children_direct with_mono t gone o = Val (spec_children t gone (o_pid o) (o_ident o)).
-Proof. exact (children_direct_mono with_mono eq_refl eq_refl). Qed.
-Print Assumptions C05_children_direct_mono.
+(* ... in fact under any content of the caller's create_time() cache *)
+Theorem C05_ctime_cache_irrelevant : forall t gone goneb cache fuel o c,
+  children_direct as_is t gone (set_ctime o c) = children_direct as_is t gone o /\
+  children_rec as_is fuel t gone (set_ctime o c) = children_rec as_is fuel t gone o /\
+  parent as_is t gone cache (set_ctime o c) = parent as_is t gone cache o /\
+  parents as_is fuel t gone goneb cache (set_ctime o c) = parents as_is fuel t gone goneb cache o.
+Proof. exact (clock_invariance as_is eq_refl). Qed.
+Print Assumptions C05_ctime_cache_irrelevant.
 
-Theorem C05_children_rec_mono : forall t gone o, wf_table t = true -> live_b t o = true ->
-  exists l, children_rec with_mono (S (length t)) t gone o = Val (Some l) /\ NoDup l /\
-            forall q, In q l <-> (desc t gone (o_pid o) (o_ident o) q /\ q <> o_pid o).
-Proof. exact (children_rec_mono with_mono eq_refl eq_refl). Qed.
-Print Assumptions C05_children_rec_mono.
-
-Theorem C05_parent_mono : forall t gone cache o, wf_table t = true -> live_b t o = true ->
-  cache_fresh_b t cache = true ->
-  parent with_mono t gone cache o = Val (spec_parent_v t gone (o_pid o) (o_ident o)).
-Proof. exact (parent_mono with_mono eq_refl). Qed.
-Print Assumptions C05_parent_mono.
-
-Theorem C05_parents_mono : forall t gone goneb cache o,
-  wf_table t = true -> live_b t o = true -> cache_fresh_b t cache = true ->
-  (exists l, parents with_mono (S (length t)) t gone goneb cache o = Val (Some l)) /\
-  (forall l fuel, memz (o_pid o) goneb = false -> chain_v t gone goneb (o_pid o) l -> (length l <= fuel)%nat ->
-                  parents with_mono fuel t gone goneb cache o = Val (Some l)).
-Proof. intros t gone goneb cache o. exact (parents_mono with_mono eq_refl t gone goneb cache o eq_refl eq_refl). Qed.
-Print Assumptions C05_parents_mono.
+(* fixed (e49a6c9); before the repair: create_time() cached, clock stepped by +100 s,
+   psutil.boot_time() called: children() of the live caller 5 reported PID 12 that started
+   before it, parent() was None *)
+Theorem C05_clock_refuted :
+  exists t k0 evs, let o := clock_obj 5 3000 k0 evs in
+    wf_table t = true /\ live_b t o = true /\
+    spec_children t [] 5 3000 = [9] /\ children_direct before_mono_fix t [] o = Val [9; 12] /\
+    spec_parent_v t [] 5 3000 = Some (1, 100) /\ parent before_mono_fix t [] None o = Val None /\
+    children_direct as_is t [] o = Val [9] /\ parent as_is t [] None o = Val (Some (1, 100)).
+Proof. exact clock_refuted. Qed.
+Print Assumptions C05_clock_refuted.
